@@ -168,7 +168,7 @@ template <class T> struct Maker<PhQ::PlanarDirection<T>> { static PhQ::PlanarDir
   if (!all_finite(d)) d = PhQ::PlanarDirection<T>{modest_value<T>(c), modest_value<T>(c)};
   return d; } };
 template <> struct Maker<std::string_view> { static std::string_view make(Ctx& c) {
-  std::string& s = c.sv_store[c.sv_used++ % 4]; s = arbitrary_bytes(c); return std::string_view(s); } };
+  return exact_view(c, arbitrary_bytes(c)); } };
 template <> struct Maker<PhQ::Dimensions> { static PhQ::Dimensions make(Ctx& c) {
   auto e = [&c]() { std::uint64_t r = c.next(); return static_cast<int8_t>((r % 5 == 0) ? static_cast<int>(r >> 8) % 256 - 128 : static_cast<int>(r >> 8) % 7 - 3); };
   return PhQ::Dimensions{PhQ::Dimension::Time{e()}, PhQ::Dimension::Length{e()}, PhQ::Dimension::Mass{e()}, PhQ::Dimension::ElectricCurrent{e()},
@@ -459,14 +459,14 @@ template <class T> struct Maker<PhQ::ConstitutiveModel::CompressibleNewtonianFlu
             # spelling as written in the header (selector p0 = literal index for exhaustive sweeps)
             add("ParseEnumeration(literal)",
                 "const std::string s = vrt::EnumInfo<%s>::literals[c.select(vrt::EnumInfo<%s>::nliterals)]; "
-                "auto r = [&] { vrt::Count k; return PhQ::ParseEnumeration<%s>(s); }(); vrt::consume(c, r);" % (E, E, E), 2)
+                "const std::string_view v = vrt::exact_view(c, s); auto r = [&] { vrt::Count k; return PhQ::ParseEnumeration<%s>(v); }(); vrt::consume(c, r);" % (E, E, E), 2)
             add("ParseEnumeration(mutated)",
                 "const std::string s = vrt::mutate(c, vrt::EnumInfo<%s>::literals[c.select(vrt::EnumInfo<%s>::nliterals)]); "
-                "auto r = [&] { vrt::Count k; return PhQ::ParseEnumeration<%s>(std::string_view(s)); }(); vrt::consume(c, r);" % (E, E, E), 2)
+                "const std::string_view v = vrt::exact_view(c, s); auto r = [&] { vrt::Count k; return PhQ::ParseEnumeration<%s>(v); }(); vrt::consume(c, r);" % (E, E, E), 2)
             add("ParseEnumeration(short)",
-                "const std::string s = vrt::short_string(c.select(65793)); auto r = [&] { vrt::Count k; return PhQ::ParseEnumeration<%s>(std::string_view(s)); }(); vrt::consume(c, r);" % E, 2)
+                "const std::string s = vrt::short_string(c.select(65793)); const std::string_view v = vrt::exact_view(c, s); auto r = [&] { vrt::Count k; return PhQ::ParseEnumeration<%s>(v); }(); vrt::consume(c, r);" % E, 2)
             add("ParseEnumeration(bytes)",
-                "const std::string s = vrt::arbitrary_bytes(c); auto r = [&] { vrt::Count k; return PhQ::ParseEnumeration<%s>(std::string_view(s)); }(); vrt::consume(c, r);" % E, 2)
+                "const std::string s = vrt::arbitrary_bytes(c); const std::string_view v = vrt::exact_view(c, s); auto r = [&] { vrt::Count k; return PhQ::ParseEnumeration<%s>(v); }(); vrt::consume(c, r);" % E, 2)
             if is_unit:
                 add("ConsistentUnit", "const auto s = vrt::make<PhQ::UnitSystem>(c); auto r = [&] { vrt::Count k; return PhQ::ConsistentUnit<%s>(s); }(); vrt::consume(c, r);" % E)
                 add("RelatedUnitSystem", "const auto e = vrt::make<%s>(c); auto r = [&] { vrt::Count k; return PhQ::RelatedUnitSystem(e); }(); vrt::consume(c, r);" % E)
@@ -498,7 +498,7 @@ template <class T> struct Maker<PhQ::ConstitutiveModel::CompressibleNewtonianFlu
             add("Base|Print<%s>" % t, "const auto x = vrt::make<%s>(c); auto r = [&] { vrt::Count k; return PhQ::Print(x); }(); vrt::consume(c, r);" % T)
             add("Base|Pi<%s>" % t, "vrt::consume(c, PhQ::Pi<%s>);" % T)
         for fn in ("Lowercase", "Uppercase", "SnakeCase"):
-            add("Base|%s(bytes)" % fn, "const std::string s = vrt::arbitrary_bytes(c); auto r = [&] { vrt::Count k; return PhQ::%s(std::string_view(s)); }(); vrt::consume(c, r);" % fn)
+            add("Base|%s(bytes)" % fn, "const std::string s = vrt::arbitrary_bytes(c); const std::string_view v = vrt::exact_view(c, s); auto r = [&] { vrt::Count k; return PhQ::%s(v); }(); vrt::consume(c, r);" % fn)
         dims = ["Time", "Length", "Mass", "ElectricCurrent", "Temperature", "SubstanceAmount", "LuminousIntensity"]
         for d in dims:
             D = "PhQ::Dimension::%s" % d
